@@ -7,7 +7,7 @@ from typing import Dict, List
 
 from ..model import AnalysisError, dotted, norm, walk_no_nested
 from ..report import rule
-from ..util import key, site_packages_source
+from ..util import allargs, key, site_packages_source
 from .clients import _model_config
 
 DEP = "client_generators.dependencies."
@@ -81,8 +81,8 @@ def c18_r7(ctx):
     if rv is None:
         raise AnalysisError("utils.PYDANTIC_RESERVED_FIELD_NAMES not found")
     comp = rv
-    while isinstance(comp, ast.Call) and dotted(comp.func) in ("frozenset", "set", "tuple", "list", "sorted") and len(comp.args) == 1 and not comp.keywords:
-        comp = comp.args[0]
+    while isinstance(comp, ast.Call) and dotted(comp.func) in ("frozenset", "set", "tuple", "list", "sorted") and len(allargs(comp)) == 1 and not comp.keywords:
+        comp = allargs(comp)[0]
     good = isinstance(comp, (ast.ListComp, ast.SetComp, ast.GeneratorExp)) and len(comp.generators) == 1 and norm(comp.generators[0].iter) == "dir(BaseModel)" \
         and norm(comp.elt) == norm(comp.generators[0].target) and [norm(i) for i in comp.generators[0].ifs] == [f"not {norm(comp.generators[0].target)}.startswith('_')"] \
         and m.imports.get("BaseModel") == ("pydantic", "BaseModel")
